@@ -12,7 +12,9 @@ META = dict(
     assumptions=[],
     outside=['> 3 buses'],
 )
-TEMPLATES = {'tree': t_tree}
+from .c14 import t_flood
+from ..runner import Job
+TEMPLATES = {'tree': t_tree, 's1.flood': t_flood}
 
 
 def explicit():
@@ -53,6 +55,7 @@ def jobs(tier):
             mk('C09', 'samefn', S.samefn(('A', 'B')), witnesses=W, max_paths=6000),
             mk('C09', 'x2/other_running', S.two_bus_await('other_running', ('B', 'A')), witnesses=W, max_paths=6000),
         ]
+    out.append(Job('C09', 's1.flood', t_flood, dict(n_range=[50, 53], retry=True), witnesses=('retry accepted',)))
     out += matrix_jobs('C09', 'm1', tier)
     out += matrix_jobs('C09', 'm3', tier)
     return flat(out)
